@@ -417,7 +417,7 @@ def check_jvm(script, files, root, behavioural):
         if morder != norder:
             viol.append(('jvm-order-only', 'product %r: order-only prerequisites %r in the Makefile, %r in '
                          'build.ninja' % (o, sorted(morder), sorted(norder))))
-    if not behavioural or viol:
+    if not behavioural:
         return viol, n
     for b, pr in prs.items():
         rc, out, _ = pr.run(['all'])
